@@ -8,10 +8,17 @@ greenlet on a pending request; the harness mutates the tree (PCreate/PDelete/ZCr
 and answers the oldest request (Serve), running the virtual gevent loop to exhaustion after
 every step.  The consumer is a pair of logging callbacks, some of which raise.
 
-Direction A: TLC -simulate behaviours of ZkServerSet replayed step by step, projection
-(_nodes, _members keys in dict order, _watching, notification-queue length, pending requests,
-callback-queue length, armed watches, callbacks of the step) compared after every step.
-Direction B: seeded random histories + a systematic family around parent deletion.
+Direction A: (1) the complete state graph of a small configuration (`tlc -dump dot,actionlabels`)
+is covered transition by transition: a set of behaviours that together take every edge is
+replayed on the real objects; (2) TLC -simulate behaviours of a larger configuration.  After every
+step the projection of the real objects (_nodes, _members keys in dict order, _watching,
+notification-queue length, pending ZooKeeper requests in order, callback-queue length, armed
+watches, the callbacks made by the step) is compared with the spec state: a mismatch is drift,
+never a violation.  The model variant replayed is the one the tree implements (behavioural probe).
+Direction B: TLC counterexamples of the weaker model variants (unchanged code, partial repairs)
+executed as histories; a systematic family around deletion/re-creation of the path; seeded random
+histories of three kinds (free mix, path churn with a lagging client, bursts of members).
+All traces (A and B) are judged by ZkAbs through ZkAbsTrace.
 """
 import collections
 import os
@@ -39,11 +46,13 @@ ASSUMPTIONS = [
   'virtual-time gevent loop preserves gevent callback FIFO order (selftest)',
   'TLC exhaustive only within the stated constants (member names, history length, re-creations of the path)',
 ]
-RULE = {'C19': 'seeded random tree histories interleaved with single Serve steps (plus TLC-simulated behaviours and a '
-               'systematic family: k members cached, members deleted, path deleted and re-created with a subset, under '
-               'every raising policy); non-trivial = at least one member created and at least one of: path deleted, '
-               'a member read answered NoNode, a callback raised, a tree operation while requests are pending; '
-               'distinct by canonical event list'}
+RULE = {'C19': 'tree histories (create/delete of members, delete/re-create of the path) interleaved with single Serve '
+               'steps: TLC counterexamples of weaker designs, every transition of the bounded state graph, TLC-simulated '
+               'behaviours, a systematic family (k members cached, members deleted, path deleted and re-created with every '
+               'subset, settled or not, under every single-callback raising policy) and seeded random histories (free mix, '
+               'path churn with a lagging client, member bursts); non-trivial = at least one member created and at least '
+               'one of: path deleted, a member read answered NoNode, a callback raised, a tree operation while requests '
+               'are pending; distinct by canonical event list'}
 
 BASE = '/svc'
 PATH = '/svc/set'
@@ -55,26 +64,21 @@ ALL_FIXES = ['DW', 'PD', 'VM']
 
 
 def models(prop, tier):
-  """The code-shaped model is checked in the variant the tree under test implements (decided by
-  a behavioural probe).  Only the fully repaired variant satisfies C19 in the model; for any
-  other variant the model check is a documented counterexample generator (the counterexamples
-  are then reproduced on the real code by direction A/B, which is what produces verdicts), and
-  the fully repaired design is checked as well."""
-  fixes = sorted(_variant())
+  """TLC checks the code-shaped model of the *repaired* design (fixes/C19-*.diff applied)
+  against the clauses of ZkAbs.  The unchanged code and the partial repairs are variants of
+  the same module that do NOT satisfy C19: TLC's counterexamples for them are generated in
+  `_counterexample_scripts` and executed on the real code (that, not the model, is what
+  produces verdicts).  Direction A replays the variant the tree under test implements."""
   full = dict(('ZKFIX_' + f, '1') for f in ALL_FIXES)
-  out = []
-  if fixes != ALL_FIXES:
-    env = dict(('ZKFIX_' + f, '1') for f in fixes)
-    out.append(dict(module='ZkServerSet', cfg='ZkServerSet_q.cfg', env=env, expect_violation='NoViolation',
-                    what='code variant %s (as in the tree under test): counterexample to C19 expected; '
-                         '2 names, history <= 7' % ('+'.join(fixes) or 'unrepaired')))
-  out.append(dict(module='ZkServerSet', cfg='ZkServerSet_q.cfg', env=full, coverage=True,
-                  what='repaired design DW+PD+VM: 2 names, history <= 7, path created <= 3x, raising policy <= 1'))
+  out = [dict(module='ZkServerSet', cfg='ZkServerSet_q.cfg', env=full, coverage=True,
+              what='repaired design DW+PD+VM: 2 names, history <= 7, path created <= 3x, raising policy <= 1'),
+         dict(module='ZkServerSet', cfg='ZkServerSet_n1.cfg', env=full,
+              what='repaired design: 1 name, history <= 10, path created <= 4x (deep churn of the path)')]
   if tier != 'quick':
-    out.append(dict(module='ZkServerSet', cfg='ZkServerSet_t.cfg', env=full, timeout=3000, heap='24g',
-                    what='repaired design: 2 names, history <= 10, path created <= 4x, raising policy <= 2'))
-    out.append(dict(module='ZkServerSet', cfg='ZkServerSet_t3.cfg', env=full, timeout=3000, heap='24g',
-                    what='repaired design: 3 names, history <= 8, path created <= 3x, raising policy <= 1'))
+    out.append(dict(module='ZkServerSet', cfg='ZkServerSet_t2.cfg', env=full, timeout=6000, heap='24g',
+                    what='repaired design: 2 names, history <= 13, path created <= 5x, raising policy <= 2'))
+    out.append(dict(module='ZkServerSet', cfg='ZkServerSet_t3.cfg', env=full, timeout=6000, heap='24g',
+                    what='repaired design: 3 names, history <= 10, path created <= 3x, raising policy <= 1'))
   return out
 
 
@@ -124,8 +128,9 @@ class Driver(object):
         self.ss.__init__(*a, **kw)
         return self.ss
       self.prov.ServerSet = factory
+    self.t_start = loop.now()
     self.init_greenlet = gevent.spawn(self.prov.Initialize, self.on_join, self.on_leave)
-    loop.run_until_idle()
+    self.settle()
 
   class ConsumerError(Exception):
     pass
@@ -200,6 +205,12 @@ class Driver(object):
         return False
       zk.srv_delete(PATH + '/' + OTHER)
       self.ev.append({'e': 'Other', 'm': 0})
+    elif k == 'GM':      # a user greenlet lists the members (GetServers -> ServerSet.__iter__, _cb_blocker)
+      if getattr(self.prov, '_server_set', None) is None:
+        return False
+      import gevent
+      gevent.spawn(self.prov.GetServers)
+      self.ev.append({'e': 'Other', 'm': 0})
     elif k == 'S':
       if not zk.pending():
         return False
@@ -220,9 +231,21 @@ class Driver(object):
       raise ValueError(o)
     if busy:
       self.mid_ops += 1
-    self.loop.run_until_idle()
+    self.settle()
     self.mark_q()
     return True
+
+  def settle(self):
+    """Run the client's loop cascade to exhaustion.  The component has no timers today; if a
+    refactoring adds short ones (debouncing, retry back-off) they are allowed to fire before
+    a quiescent point is declared (bounded: 200 expiries / one virtual hour)."""
+    loop = self.loop
+    loop.run_until_idle()
+    n = 0
+    while (self.zk.pending() == 0 and loop.next_timer_at() is not None and n < 200
+           and loop.next_timer_at() <= self.t_start + 3600.0):
+      loop.run_until(loop.next_timer_at())
+      n += 1
 
   # -- projection of the real objects (optional: None if an attribute is missing)
   def projection(self):
@@ -294,6 +317,9 @@ def _gen_script(rng, n, thorough):
     if rng.random() < 0.08:
       ops.append(['Q'])
       continue
+    if rng.random() < 0.04:
+      ops.append(['GM'])
+      continue
     cand = []
     if not parent:
       cand += [['PC']] * 3
@@ -331,6 +357,97 @@ def _gen_script(rng, n, thorough):
           'endpoint': rng.choice([None, None, 'aux'])}
 
 
+def _gen_churn(rng, n):
+  """The path is created, populated, emptied and deleted again and again while the client
+  lags behind: few Serve steps between tree operations, so that watch callbacks, listings and
+  member reads of one incarnation are answered in a later one."""
+  ops = []
+  lag = rng.choice([0.0, 0.3, 0.5, 0.7, 1.0, 1.5])
+
+  def serves():
+    k = 0
+    x = lag
+    while x > 0:
+      if rng.random() < min(1.0, x):
+        k += 1
+      x -= 1.0
+    for _ in range(k):
+      ops.append(['S'])
+
+  if rng.random() < 0.5:
+    ops.append(['PC'])
+    ops.append(['Q'])
+  else:
+    for _ in range(rng.randint(0, 3)):
+      ops.append(['S'])
+  parent = bool(ops and ops[0] == ['PC'])
+  gen = 0
+  for _cycle in range(rng.randint(2, 4)):
+    if not parent:
+      ops.append(['PC'])
+      parent = True
+      serves()
+    ms = rng.sample(range(1, n + 1), rng.randint(0, min(2, n)))
+    for m in ms:
+      gen += 1
+      ops.append(['ZC', m, gen % 5])
+      serves()
+    rng.shuffle(ms)
+    for m in ms:
+      ops.append(['ZD', m])
+      serves()
+    if rng.random() < 0.9:
+      ops.append(['PD'])
+      parent = False
+      serves()
+    if rng.random() < 0.15:
+      ops.append(['Q'])
+  if rng.random() < 0.5 and not parent:
+    ops.append(['PC'])
+    serves()
+    m = rng.randint(1, n)
+    ops.append(['ZC', m, 3])
+  pol = rng.random()
+  rj, rl = [], []
+  if pol < 0.2:
+    rl = [rng.randint(1, n)]
+  elif pol < 0.3:
+    rj = [rng.randint(1, n)]
+  return {'n': n, 'rj': rj, 'rl': rl, 'ops': ops, 'endpoint': None}
+
+
+def _gen_burst(rng, n):
+  """Many members appear at once (one listing with several nodes to read), then members
+  are toggled while the worker is still reading: listings queue up behind the worker."""
+  ops = [['PC']]
+  for _ in range(rng.randint(1, 3)):
+    ops.append(['S'])
+  present = set()
+  first = rng.sample(range(1, n + 1), rng.randint(2, n))
+  for m in first:
+    ops.append(['ZC', m])
+    present.add(m)
+  gen = 0
+  for _ in range(rng.randint(3, 8)):
+    for _k in range(rng.choice([1, 1, 2, 2, 3])):
+      ops.append(['S'])
+    m = rng.randint(1, n)
+    if m in present:
+      ops.append(['ZD', m])
+      present.discard(m)
+    else:
+      gen += 1
+      ops.append(['ZC', m, gen % 5])
+      present.add(m)
+  pol = rng.random()
+  rj, rl = [], []
+  if pol < 0.15:
+    rl = [rng.randint(1, n)]
+  elif pol < 0.3:
+    rj = [rng.randint(1, n)]
+  return {'n': n, 'rj': rj, 'rl': rl, 'ops': ops, 'endpoint': None}
+
+
 def _systematic():
   """k members cached (all notifications processed), then members and the path deleted,
   the path re-created with a subset of the members, with and without settling in between,
@@ -359,14 +476,69 @@ def _systematic():
   return out
 
 
+# Weaker designs of the component (the unchanged code and partial repairs), as variants of the
+# code-shaped model.  TLC's counterexample for each is a history on which that design fails;
+# the tree under test must survive all of them (judged, like every trace, by ZkAbs).
+_WEAKER = [
+  ([], 'ZkServerSet_q.cfg', False),
+  (['PD'], 'ZkServerSet_q.cfg', False),
+  (['PD', 'DW'], 'ZkServerSet_q.cfg', False),
+  (['PD', 'VM'], 'ZkServerSet_q.cfg', False),
+  (['VM', 'DW'], 'ZkServerSet_q.cfg', False),
+  (['PD', 'VM', 'DW', 'NOINV'], 'ZkServerSet_n1.cfg', False),   # needs a history of 10 tree operations
+]
+
+
+def _counterexample_scripts(tier):
+  import concurrent.futures
+
+  def work(item):
+    flags, cfg, thorough_only = item
+    if thorough_only and tier == 'quick':
+      return []
+    env = dict(('ZKFIX_' + f, '1') for f in flags)
+    r = tlc.run_tlc('ZkServerSet', cfg, workers=4, timeout=1800, env=env, heap='8g')
+    if r.violated != 'NoViolation':
+      raise RuntimeError('model variant %s: expected a counterexample to NoViolation, got %r %r\n%s' % (
+        flags, r.violated, r.error, r.stdout[-1500:]))
+    ops = []
+    for m in re.finditer(r'^State \d+: <(\w+)(?:\(([^)]*)\))? line', r.stdout, re.M):
+      name = m.group(1)
+      if name in _OPS:
+        ops.append([_OPS[name]] + ([int(m.group(2))] if m.group(2) else []))
+    pol = {}
+    for v in ('rj', 'rl'):
+      mm = re.search(r'^/\\ %s = (\{[^}]*\})' % v, r.stdout, re.M)
+      pol[v] = tlc.parse_tla(mm.group(1)) if mm else []
+    n = max([2] + [o[1] for o in ops if len(o) > 1])
+    out = []
+    for swap in (False, True):
+      o2 = [[o[0]] + ([n + 1 - o[1]] if swap else [o[1]]) if len(o) > 1 else list(o) for o in ops]
+      out.append({'n': n, 'rj': [n + 1 - x if swap else x for x in pol['rj']],
+                  'rl': [n + 1 - x if swap else x for x in pol['rl']], 'ops': o2, 'endpoint': None,
+                  'origin': 'TLC counterexample of model variant %s' % ('+'.join(flags) or 'unrepaired')})
+    return out
+
+  scripts = []
+  with concurrent.futures.ThreadPoolExecutor(max_workers=3) as ex:
+    for r in ex.map(work, _WEAKER):
+      scripts.extend(r)
+  return scripts
+
+
 def cases(prop, tier, seed):
   _preload()
   rng = random.Random(1000003 * int(seed) + 19)
   thorough = tier != 'quick'
-  n = 1200 if not thorough else 20000
-  out = list(_systematic())
+  n = 1000 if not thorough else 8000
+  out = list(_counterexample_scripts(tier)) + list(_systematic())
   for i in range(n):
-    out.append(_gen_script(rng, [2, 2, 3, 3, 4][i % 5], thorough))
+    if i % 3 == 2:
+      out.append(_gen_churn(rng, [1, 2, 2, 3][(i // 3) % 4]))
+    elif i % 6 == 1:
+      out.append(_gen_burst(rng, [3, 4][(i // 6) % 2]))
+    else:
+      out.append(_gen_script(rng, [2, 2, 3, 3, 4][i % 5], thorough))
   return out
 
 
@@ -380,29 +552,64 @@ def nontrivial(prop, t):
 
 
 def witness(prop, t, consumed, clause):
-  """Features of the failing history (prefix up to the failing event)."""
+  """Features of the failing history (the prefix up to the failing event), all computed from
+  the recorded observable events:
+    parent_deleted / parent_recreated   the path was deleted (and created again) before the failure
+    settled_before_recreate             a quiescent point lies between the last deletion of the path
+                                        and its re-creation (the deletion was completely processed)
+    unsettled_recreate                  somewhere in the history the path was re-created with no quiescent
+                                        point since its deletion (the client had not caught up)
+    members_held_at_parent_delete       members the consumer held when the path was last deleted (0, 1, 2 = two or more)
+    consumer_extra / consumer_missing   at the failing quiescent point the consumer holds a member that is
+                                        not present / lacks a member that is present
+    raised                              a consumer callback raised earlier in the history
+    missing_existed_in_earlier_incarnation   a missing member had also been a member before the path was last deleted
+    missing_recreated_in_current_incarnation a missing member was created, deleted and created again since the path
+                                             was last created
+    duplicate                           'join' / 'leave' for a C19.alternate failure"""
   ev = t['ev'][:consumed + 1]
   last_pd = max([i for i, e in enumerate(ev) if e['e'] == 'PDelete'] or [-1])
   view = set()
-  cached_at_pd = 0
-  for i, e in enumerate(ev):
+  held = 0
+  for i, e in enumerate(ev[:-1] if ev and ev[-1]['e'] in ('Join', 'Leave') else ev):
     if e['e'] == 'Join':
       view.add(e['m'])
     elif e['e'] == 'Leave':
       view.discard(e['m'])
     if i == last_pd:
-      cached_at_pd = len(view)
-  present = set(ev[-1].get('present', [])) if ev and ev[-1]['e'] == 'Q' else None
-  w = {
-    'parent_deleted': last_pd >= 0,
-    'parent_recreated': any(e['e'] == 'PCreate' for e in ev[last_pd + 1:]) if last_pd >= 0 else False,
-    'raised': any(e['e'] == 'Raised' for e in ev),
-  }
-  if present is not None:
+      held = len(view)
+  w = {'parent_deleted': last_pd >= 0, 'parent_recreated': False, 'settled_before_recreate': False,
+       'unsettled_recreate': False, 'raised': any(e['e'] == 'Raised' for e in ev)}
+  if last_pd >= 0:
+    w['members_held_at_parent_delete'] = min(held, 2)
+    after = ev[last_pd + 1:]
+    pc = [i for i, e in enumerate(after) if e['e'] == 'PCreate']
+    if pc:
+      w['parent_recreated'] = True
+      w['settled_before_recreate'] = any(e['e'] == 'Q' for e in after[:pc[0]])
+  gone = settled = False
+  for e in ev:
+    if e['e'] == 'PDelete':
+      gone, settled = True, False
+    elif e['e'] == 'Q' and gone:
+      settled = True
+    elif e['e'] == 'PCreate':
+      if gone and not settled:
+        w['unsettled_recreate'] = True
+      gone = False
+  last = ev[-1] if ev else None
+  if last is not None and last['e'] == 'Q':
+    present = set(last.get('present', []))
     w['consumer_extra'] = bool(view - present)
     w['consumer_missing'] = bool(present - view)
-  if last_pd >= 0:
-    w['members_held_at_parent_delete'] = min(cached_at_pd, 2)
+    missing = present - view
+    start = max([i for i, e in enumerate(ev) if e['e'] == 'PCreate'] or [0])
+    w['missing_existed_in_earlier_incarnation'] = any(
+      e['e'] == 'ZCreate' and e['m'] in missing for e in ev[:max(last_pd, 0)])
+    w['missing_recreated_in_current_incarnation'] = any(
+      sum(1 for e in ev[start:] if e['e'] == 'ZCreate' and e['m'] == m) >= 2 for m in missing)
+  elif last is not None and last['e'] in ('Join', 'Leave'):
+    w['duplicate'] = last['e'].lower()
   return w
 
 
@@ -554,7 +761,7 @@ def _replay_one(beh):
       drift = compare(name, params, exp, before)
   d.op(['Q'])
   return {'cfg': {'n': beh['n'], 'rj': sorted(d.rj), 'rl': sorted(d.rl)}, 'ev': d.ev, 'steps': steps,
-          'drift': drift, 'meta': _meta(d, loop)}
+          'drift': drift, 'meta': _meta(d, loop), 'proj': d.projection() is not None}
 
 
 def _replay_batch(behs):
@@ -664,7 +871,7 @@ def replay_behaviours(prop, tier, seed):
   fixes = _variant()
   env = dict(('ZKFIX_' + f, '1') for f in fixes)
   quick = tier == 'quick'
-  behs, gsum = _graph_behaviours(env, 'ZkServerSet_cov.cfg' if quick else 'ZkServerSet_cov6.cfg',
+  behs, gsum = _graph_behaviours(env, 'ZkServerSet_cov.cfg' if quick else 'ZkServerSet_cov7.cfg',
                                  100000, int(seed))
   r, sims = tlc.simulate_behaviours('ZkServerSet', 'ZkServerSet_sim.cfg', num=300 if quick else 3000, depth=40,
                                     seed=int(seed) + 1, timeout=900, env=env)
@@ -682,16 +889,21 @@ def replay_behaviours(prop, tier, seed):
   drift = []
   steps = 0
   feats = collections.Counter()
+  noproj = 0
   for bs, x in zip(batches, res):
     for b, o in zip(bs, x['ok']):
       steps += o['steps']
+      if not o.get('proj'):
+        noproj += 1
       feats.update(b['feat'])
       if o['drift']:
         drift.append(o['drift'])
       traces.append({'cfg': o['cfg'], 'ev': o['ev'], 'meta': o.get('meta'), 'script': {'behaviour': b}})
   summary = {'behaviours_replayed': len(behs), 'steps_compared': steps, 'drift': len(drift),
              'model_variant': '+'.join(sorted(fixes)) or 'unrepaired',
-             'behaviours_through': dict(feats)}
+             'behaviours_through': dict(feats),
+             # internal attributes are optional: without them only the observable events are checked
+             'behaviours_without_internal_projection': noproj}
   summary.update(gsum)
   return {'summary': summary, 'traces': traces, 'drift': drift}
 
